@@ -393,9 +393,7 @@ def check_case(ctx, mode, case):
         lit = "".join(str(p[1]) for p in pieces)
         single = len(pieces) == 1 and pieces[0][0] == "val" and not isinstance(pieces[0][1], str)
         tc = _textclass(lit)
-        if mode == "async.render":
-            key = f"{mode}:raises:{type(e).__name__}"
-        elif not single and tc == "literal_eval-" + type(e).__name__:
+        if not single and tc == "literal_eval-" + type(e).__name__:
             # the text is not a literal and literal_eval's own error escaped
             key = f"{tc}-propagates"
         else:
@@ -485,9 +483,7 @@ def check_const(ctx, mode, i):
     try:
         got = do_render(mode, src, values)
     except BaseException as e:  # noqa: BLE001
-        key = f"{mode}:raises:{type(e).__name__}"
-        if mode != "async.render":
-            key += ":const-expr"
+        key = f"{mode}:raises:{type(e).__name__}:const-expr"
         ctx.violation(key, f"{mode} of {src!r} raised {type(e).__name__}: {str(e)[:200]}", rec)
         return
     if how == "eq":
@@ -524,8 +520,7 @@ def run(ctx):
     while ctx.more(i, n_max, 150):
         case = gen_case(rng)
         for mode in MODES:
-            # the anticipated async.render defect would otherwise dominate the
-            # time budget; it is still exercised on every second case
+            # the two secondary modes run on every second case
             if mode in ("async.render", "sandbox.render") and i % 2:
                 continue
             check_case(ctx, mode, case)
